@@ -374,6 +374,20 @@ impl Service {
         }
     }
 
+    /// a failed probe: only a persistent instance is judged by the probe. A result that arrives after the
+    /// instance has been re-registered as ephemeral must not touch it (its heartbeats decide).
+    pub(crate) fn update_perpetual_instance_healthy_invalid(
+        &mut self,
+        instance_id: &InstanceShortKey,
+    ) {
+        if let Some(i) = self.instances.get(instance_id) {
+            if i.ephemeral {
+                return;
+            }
+        }
+        self.update_instance_healthy_invalid(instance_id);
+    }
+
     pub(crate) fn update_perpetual_instance_healthy_valid(
         &mut self,
         instance_id: &InstanceShortKey,
